@@ -200,7 +200,21 @@ pub fn check_live(c: &crate::props::c01::Case) -> Verdict {
     let opts = crate::props::c01::opts_of(c, &bt, &t);
     let mut w = make_writer(t.pid, &opts);
     let mut dest = Dest::new(vec![], 0);
-    let img = match run_dump(&mut w, &mut dest) {
+    // in a quarter of the cases the name of ONE thread (not the last one listed) cannot be read: opening
+    // its comm file fails with ENOENT (what a thread exiting at that instant produces), EACCES or EMFILE
+    let all_tids: Vec<i32> = std::iter::once(t.pid).chain(bt.thread_ids.iter().map(|id| t.tid(*id))).collect();
+    let unreadable: Option<(i32, i32)> = if (h >> 40) % 4 == 0 && all_tids.len() >= 2 {
+        let mut sorted = all_tids.clone();
+        sorted.sort();
+        Some((sorted[((h >> 44) as usize) % (sorted.len() - 1)], [libc::ENOENT, libc::EACCES, libc::EMFILE][((h >> 50) % 3) as usize]))
+    } else {
+        None
+    };
+    let out = match unreadable {
+        Some((tid, errno)) => crate::vcore::faultfs::with_failing_path(format!("/{tid}/comm").as_bytes(), errno, || run_dump(&mut w, &mut dest)).0,
+        None => run_dump(&mut w, &mut dest),
+    };
+    let img = match out {
         DumpOutcome::Ok(v) => v,
         DumpOutcome::Err(e) => return Verdict::pass_c(None, vec![format!("dump-error:{}", e.split('(').next().unwrap_or(""))]),
         DumpOutcome::Panic(l, m) => return panic_verdict(&l, &m),
@@ -211,6 +225,10 @@ pub fn check_live(c: &crate::props::c01::Case) -> Verdict {
     let mut want: Vec<(u32, String)> = vec![];
     let (mut named, mut unnamed) = (0, 0);
     for tid in &listed {
+        if unreadable.map(|(u, _)| u == *tid as i32).unwrap_or(false) {
+            unnamed += 1;
+            continue;
+        }
         match comm_of(t.pid, *tid as i32).and_then(|c| expected_name(&c)) {
             Some(n) => {
                 want.push((*tid, n));
@@ -232,6 +250,9 @@ pub fn check_live(c: &crate::props::c01::Case) -> Verdict {
     if dup > 0 {
         classes.push("several-threads-with-the-same-name".into());
     }
+    if let Some((_, e)) = unreadable {
+        classes.push(format!("one-comm-unopenable:errno-{e}"));
+    }
     if opts.size_limit.is_some() {
         classes.push("size-limit-set".into());
     }
@@ -243,7 +264,7 @@ pub fn run(ctx: &mut LaneCtx) {
         SubSpec {
             name: "live-names",
             cases: (720, 20_000),
-            rule: "live targets with 1..24 threads whose names are unset / valid UTF-8 (0..15 bytes, multi-byte, whitespace) / not valid UTF-8 - in half of the cases several or all threads share one name -, dumped with generated writer options (crash context, size limit, sanitize, skip-unreferenced, app memory, user mappings, direct auxv, blamed thread); oracle = names stream pairs equal {(tid, comm trimmed)} for the listed threads whose comm is valid UTF-8, as read from /proc/pid/task/tid/comm; non-trivial = named and unnamed threads in the same dump, or duplicate names; distinct = hash of case",
+            rule: "live targets with 1..24 threads whose names are unset / valid UTF-8 (0..15 bytes, multi-byte, whitespace) / not valid UTF-8 - in half of the cases several or all threads share one name -, dumped with generated writer options (crash context, size limit, sanitize, skip-unreferenced, app memory, user mappings, direct auxv, blamed thread); in a quarter of the cases the comm file of one thread that is not the last one listed cannot be opened (ENOENT - a thread exiting at that instant -, EACCES or EMFILE; open shim) and only that thread may then lack a name; oracle = names stream pairs equal {(tid, comm trimmed)} for the listed threads whose comm is valid UTF-8, as read from /proc/pid/task/tid/comm; non-trivial = named and unnamed threads in the same dump, or duplicate names; distinct = hash of case",
             strategy: crate::props::c01::case_strategy(24).boxed(),
             max_shrink_iters: 150,
             log_current: true,
